@@ -78,6 +78,18 @@ def attr_hist(case, fail):
     return props, sig
 
 
+def attr_hist_event(case, ev):
+    """A rejected event of a driver history: shape / projection / ledger all live in one event, so the rejection is
+    attributed to the op's own property, to C01 (the cells or dimensions differ from the model) and to C05 (ledger)."""
+    op = ev.get("ev")
+    if op in DRAIN_OPS:
+        opp = {"C07", "C20"}
+    else:
+        opp = set(HIST_OP_PROPS.get(op, set()))
+    props = set(opp) | {"C01", "C05"}
+    return props, {"family": "trace", "op": op, "kind": "trace_rejected"}
+
+
 def hist_key(case):
     steps = case["steps"]
     last = steps[-1]
@@ -130,6 +142,12 @@ def p_C01(ctx):
     ctx.sample_from(w.cases_path, 1)
     ctx.replay(w.cases_path, attr_hist, profile="dev", elem="elem", cap=1, label="walks")
     ctx.replay(w.cases_path, attr_hist, profile="release", elem="elem", cap=0, label="walks")
+    # code -> spec: long random histories on larger shapes, recorded from the real crate and validated by TLC
+    nh, steps = (120, 60) if ctx.quick else (1500, 120)
+    ctx.drive_and_validate("drive-hist", ["hist", ctx.seed, nh, steps, 6, "{out}", "elem"], "TooDeeTrace", attr_hist_event,
+                           profile="dev", invariants=("ShapeOK", "HandleOK"))
+    ctx.drive_and_validate("drive-hist", ["hist", ctx.seed + 1, nh, steps, 9, "{out}", "u32"], "TooDeeTrace", attr_hist_event,
+                           profile="release", invariants=("ShapeOK", "HandleOK"))
 
 
 HIST_ASSUME = ["rustc/std Vec, slice and sort implementations", "TLC and the CommunityModules Json module",
@@ -156,6 +174,11 @@ def p_C05(ctx):
     ctx.sample_from(w.cases_path, 1)
     ctx.replay(w.cases_path, attr_hist, profile="dev", elem="elem", cap=0, label="walks")
     ctx.replay(w.cases_path, attr_hist, profile="release", elem="zst", cap=1, label="walks")
+    nh, steps = (120, 60) if ctx.quick else (1500, 120)
+    ctx.drive_and_validate("drive-hist", ["hist", ctx.seed + 2, nh, steps, 6, "{out}", "elem"], "TooDeeTrace", attr_hist_event,
+                           profile="release", invariants=("ShapeOK", "HandleOK"))
+    ctx.drive_and_validate("drive-hist-zst", ["hist", ctx.seed + 3, nh, steps, 5, "{out}", "zst"], "TooDeeTrace", attr_hist_event,
+                           profile="dev", invariants=("ShapeOK", "HandleOK"))
 
 
 def p_C06(ctx):
@@ -396,6 +419,19 @@ def sort_pipeline(ctx, by):
     if not ctx.quick:
         combos += [("dev", "elem"), ("release", "u32")]
     acc_replays(ctx, r, combos, "sorts")
+    # long key lines: recorded from the real crate by the random driver, judged by TLC (SortTrace.tla)
+    want = "row" if by == "row" else "col"
+    n = 160 if ctx.quick else 1500
+    for prof in ("dev", "release"):
+        ctx.drive_and_validate("bigsorts", ["sort", ctx.seed + (0 if prof == "dev" else 7919), n, "{out}"], "SortTrace", attr_sort_event,
+                               profile=prof, invariants=("StableDefsAgree",), filter_event=lambda e: e.get("by") == want)
+
+
+def attr_sort_event(case, ev):
+    props = {"C16"} if ev.get("by") == "row" else {"C17"}
+    if not ev.get("outside_ok", True):
+        props.add("C04")
+    return props, {"family": "sorttrace", "by": ev.get("by"), "stable": ev.get("stable"), "form": ev.get("form"), "kind": "trace_rejected"}
 
 
 def p_C16(ctx):
